@@ -329,8 +329,8 @@ func (s *FromNode) Where(lambda *ast.LambdaNode) *FromNode {
 	if s.Lambda != nil {
 		s.Lambda.Expression = &ast.BinaryNode{
 			Operator: ast.TokenAnd,
-			Left:     s.Lambda.Expression,
-			Right:    lambda.Expression,
+			Left:     parenthesized(s.Lambda.Expression),
+			Right:    parenthesized(lambda.Expression),
 		}
 	} else {
 		s.Lambda = lambda
@@ -375,4 +375,17 @@ func (n *FromNode) GroupByMeasurement() *FromNode {
 
 func (s *FromNode) validate() error {
 	return validateDimensions(s.Dimensions, nil)
+}
+
+// parenthesized returns the expression marked as parenthesized if it is a binary expression.
+// An expression that is built from whole expressions has the structure "(a) AND (b)", but
+// it is written out without parentheses unless its operands say so: `a AND b OR c` for the
+// conditions `a` and `b OR c` reads back as `(a AND b) OR c`.
+func parenthesized(n ast.Node) ast.Node {
+	if bn, ok := n.(*ast.BinaryNode); ok && !bn.Parens {
+		c := *bn
+		c.Parens = true
+		return &c
+	}
+	return n
 }
